@@ -145,7 +145,7 @@ package boltz
 //@   ensures[first-difference-decides-value] result != 0 ==> exists(j, 0 <= j && j < len(rc.symbols) && result == cmpRes(ref(rc.symbols[j]), ref(row1), ref(row2)) && forall(i, 0 <= i && i < j ==> cmpRes(ref(rc.symbols[i]), ref(row1), ref(row2)) == 0))
 //@   invariant 1: forall(i, 0 <= i && i <= rangeindex ==> cmpRes(ref(rc.symbols[i]), ref(row1), ref(row2)) == 0) && (rangeindex >= 0 ==> result == 0) && (rangeindex < 0 ==> result == 0)
 //@ func (*sortingScanner).ScanCursor
-//@   props C02
+//@   props C02 C15
 //@   requires query != nil && scanner.store != nil
 //@   requires scanner.offset == 0 && scanner.count == 0
 //@   modifies *
